@@ -338,9 +338,15 @@ pub fn build_join_accept(key: &[u8; 16], devaddr: u32, dl_settings: u8, rx_delay
 
 /// JoinAccept assembled by hand (MIC via the crate's CMAC wrapper, encryption by AES-decrypt).
 pub fn build_join_accept_raw(key: &[u8; 16], devaddr: u32, dl_settings: u8, rx_delay: u8, cf: Option<(u8, [u8; 15])>) -> Vec<u8> {
+    build_join_accept_mhdr(key, 0x20, devaddr, dl_settings, rx_delay, cf)
+}
+
+/// As above with an arbitrary MHDR octet (the MIC covers it): a server speaking another major
+/// version, or a frame of another type that happens to verify.
+pub fn build_join_accept_mhdr(key: &[u8; 16], mhdr: u8, devaddr: u32, dl_settings: u8, rx_delay: u8, cf: Option<(u8, [u8; 15])>) -> Vec<u8> {
     use lorawan::keys::{Crypto, NetworkCrypto};
     let crypto = DefaultNetworkCrypto::new(&AES128(*key));
-    let mut out = vec![0x20u8];
+    let mut out = vec![mhdr];
     out.extend_from_slice(&JOIN_NONCE);
     out.extend_from_slice(&NET_ID);
     out.extend_from_slice(&devaddr.to_le_bytes());
@@ -361,6 +367,18 @@ pub fn build_join_accept_raw(key: &[u8; 16], devaddr: u32, dl_settings: u8, rx_d
 /// The decoded view of a received byte string, as the model consumes it (grammar in Driver/Mac.lean).
 /// `mic_hint`: the counter the frame was built with, if the caller knows it.
 pub fn view_of(bytes: &[u8], nwk: &[u8; 16], app: &[u8; 16], root: &[u8; 16], mic_hint: Option<u32>) -> String {
+    let r = crate::refcodec::ref_view(bytes, nwk, app, root, mic_hint);
+    if std::env::var("LV_VIEW_SELFTEST").is_ok() {
+        let o = view_of_impl(bytes, nwk, app, root, mic_hint);
+        if o != r {
+            eprintln!("VIEW-MISMATCH {} impl={} ref={}", hex(bytes), o, r);
+        }
+    }
+    r
+}
+
+/// The same view computed with the crate's own parser (self-test of the reference decoder only).
+pub fn view_of_impl(bytes: &[u8], nwk: &[u8; 16], app: &[u8; 16], root: &[u8; 16], mic_hint: Option<u32>) -> String {
     let mut copy = bytes.to_vec();
     if let Ok(enc) = EncryptedDataPayload::parse(&mut copy[..]) {
         let nwk_c = DefaultCrypto::new(&AES128(*nwk));
